@@ -857,7 +857,8 @@ class Component(BaseModel, Serializable):
         errors = {}
         if self.vectorized:
             if alpha_requested:
-                kwargs['model_fidelity'] = np.atleast_1d(model_fidelity).reshape((N, -1))
+                alpha_shape = (N, -1) if N > 0 else (0, len(self.model_fidelity))  # an empty batch has no size to infer
+                kwargs['model_fidelity'] = np.atleast_1d(model_fidelity).reshape(alpha_shape)
             output_dict = self.model(*[inputs[var.name] for var in self.inputs], **kwargs) if self.call_unpacked \
                 else self.model(inputs, **kwargs)
             if self.ret_unpacked:
